@@ -1,9 +1,12 @@
 (* C11 -- key generation and signing reject malformed inputs instead of crashing.
    Only statements; proofs in Proofs/TotalProofs.v and Proofs/SignProofs.v.
-   [Panic] is the model's outcome for "the Rust code unwinds".  (The auxiliary-buffer part of
-   the property is covered with C10.) *)
+   [Panic] is the model's outcome for "the Rust code unwinds".  The auxiliary-buffer clause
+   (empty, shorter than its header, corrupted level word, any contents) is
+   [C11_aux_view_total], [C11_sign_with_aux_total], [C11_keygen_with_aux_total]
+   (proofs in Proofs/AuxTotal.v). *)
 From HbsLms Require Import Base.Bytes Model.Consts Model.KeyBlob Model.Hss Model.SignCore.
-From HbsLms Require Import Proofs.TotalProofs Proofs.SignProofs Gen.Generated.
+From HbsLms Require Import Model.Aux.
+From HbsLms Require Import Proofs.TotalProofs Proofs.SignProofs Proofs.AuxTotal Gen.Generated.
 
 Local Open Scope N_scope.
 
@@ -41,6 +44,32 @@ Proof.
   - now rewrite E1, E2.
 Qed.
 
+
+(* ---- any auxiliary buffer ---- *)
+
+(* obligation on the aux constants of the current source (header offset, marker position, the
+   in-use bit 31 lies above every tree level), decided by computation *)
+Lemma source_aux_consts_ok : aux_consts_ok K_src = true.
+Proof. vm_compute. reflexivity. Qed.
+
+(* whatever the buffer contains -- empty, one byte, a level word announcing more layers than the
+   buffer holds, garbage behind a zero first byte -- the view is either absent or a well-split
+   cache; the layer split never runs past the end of the buffer *)
+Theorem C11_aux_view_total :
+  forall (n : nat) (H : bytes -> bytes) (aux seed : bytes) (h0 : nat),
+    exists oe aux1, get_expanded K_src n H aux seed h0 = Ok (oe, aux1).
+Proof. intros n H. exact (get_expanded_total K_src n H source_aux_consts_ok). Qed.
+
+Theorem C11_sign_with_aux_total :
+  forall (n : nat) (H : bytes -> bytes) (blob msg aux : bytes) (cb : bytes -> bool),
+    fst (fst (sign_core_aux K_src n H blob msg aux cb)) <> Panic.
+Proof. intros n H. exact (sign_core_aux_total K_src n H source_aux_consts_ok). Qed.
+
+Theorem C11_keygen_with_aux_total :
+  forall (n : nat) (H : bytes -> bytes) (ps : list param) (seed aux : bytes),
+    keygen_aux K_src n H ps seed aux <> Panic.
+Proof. intros n H. exact (keygen_aux_total K_src n H source_aux_consts_ok). Qed.
+
 (* non-vacuity: a wiped key and a key with an invalid parameter nibble are such malformed keys *)
 Example ex_C11_malformed :
   params_of_bytes K_src 32 (unhex "ffffffffffffffff") = Err
@@ -52,3 +81,6 @@ Print Assumptions C11_keygen_total.
 Print Assumptions C11_sign_total.
 Print Assumptions C11_lifetime_total.
 Print Assumptions C11_malformed_key_no_callback.
+Print Assumptions C11_aux_view_total.
+Print Assumptions C11_sign_with_aux_total.
+Print Assumptions C11_keygen_with_aux_total.
